@@ -34,6 +34,9 @@ RULE = ("seq: random sequential histories (1..40 ops) of Claim/Release/IsOwner/L
         "Start, PADI/PADR through its packet channel) on ONE registry and ONE real local event bus on a mixed-access S-VLAN; "
         "random DISCOVER / PADR sequences (2..6) over 1..2 of 4 tuples; after every op the settled (live ipoe sessions, live "
         "pppoe sessions, owner protocol) of the tuple is compared with the model (non-trivial: a cross-protocol takeover). "
+        "ae2e: the same two real components with the terminate events HELD by a bus wrapper and released one at a time (V), PADT for "
+        "the tuple's current PPPoE session (X) and a published terminate request for its IPoE session (O): random interleavings of "
+        "3..8 ops plus 0..4 draining V. "
         "rpppoe/ripoe: ownership across RESTARTS - the real pppoe (resp. ipoe) component on an in-memory opdb that survives, sessions created "
         "as the creation paths build them and checkpointed, restart = new Registry + new component + restoreSessions, the other "
         "protocol's side simulated by the harness; random N/H/X/B sequences (2..7) on 1..2 tuples, all four tuples compared after "
@@ -213,7 +216,9 @@ def gen_cases(rng, tier, budget):
     nseq = budget or (1500 if quick else 40000)
     nconc = (budget // 4) if budget else (500 if quick else 10000)
     nrace = (budget // 20) if budget else (150 if quick else 1500)
-    cases += E2E_FIXED
+    cases += E2E_FIXED + AE2E_FIXED
+    for _ in range((budget // 40) if budget else (40 if quick else 500)):
+        cases.append(gen_ae2e(rng))
     for who in ("rpppoe", "ripoe"):
         cases += [who + " " + c for c in RESTORE_FIXED]
         for _ in range((budget // 40) if budget else (60 if quick else 1500)):
@@ -265,8 +270,23 @@ def gen_cases(rng, tier, budget):
 
 def route(case):
     h = case.split(" ", 1)[0]
-    return {"rconc": "session_race", "ipoe": "ipoe", "pppoe": "pppoe", "e2e": "e2e", "rpppoe": "pppoe_restore",
+    return {"rconc": "session_race", "ipoe": "ipoe", "pppoe": "pppoe", "e2e": "e2e", "ae2e": "e2e", "rpppoe": "pppoe_restore",
             "ripoe": "ipoe_restore"}.get(h, "session")
+
+
+def gen_ae2e(rng):
+    """asynchronous bus: creations, PADT (X), operator terminate of the IPoE session (O) and deliveries (V) interleave"""
+    ts = rng.sample([0, 1, 2, 3], rng.choice([1, 1, 1, 2]))
+    ops = []
+    for _ in range(rng.randint(3, 8)):
+        k = rng.choice("DDQSPPPVVVVXO")
+        ops.append("V" if k == "V" else k + str(rng.choice(ts)))
+    ops += ["V"] * rng.choice([0, 2, 4])       # drain (more V than events is harmless)
+    return "ae2e " + " ".join(ops)
+
+
+AE2E_FIXED = ["ae2e D0 P0 V", "ae2e P0 D0 P0 V V", "ae2e P0 D0 O0 V V", "ae2e D0 P0 X0 V", "ae2e P0 P0 X0 V D0 V",
+              "ae2e D0 P0 D0 V P0 V V", "ae2e P0 D0 X0 P0 V V V", "ae2e D1 P1 O1 X1 V V D1", "ae2e P0 Q0 S0 V P0 V"]
 
 
 def gen_restore(rng, who):
@@ -410,6 +430,9 @@ def nontrivial(case, out):
     if case.startswith(("rpppoe", "ripoe")):
         t = case.split()[1:]
         return "B" in t and any(x[0] in "NH" for x in t[:t.index("B")])     # a session of the real component lives through a restart
+    if case.startswith("ae2e"):
+        t = case.split()[1:]
+        return "V" in t and any(x[0] in "XO" or (x[0] in "DQSP" and i > 0) for i, x in enumerate(t[:len(t) - 1 - t[::-1].index("V")]))
     if case.startswith("e2e"):
         t = case.split()[1:]
         return any((a[0] == "P") != (b[0] == "P") and a[1] == b[1] for a, b in zip(t, t[1:]))    # a cross-protocol takeover
@@ -442,9 +465,9 @@ def classify(case, impl, model):
                              "(live ipoe/pppoe sessions : owner), the specification gives %s" % (
                                  "pppoe" if case.startswith("rpppoe") else "ipoe", i, ops[i] if i < len(ops) else "?", a, b))
         return "P", "restore: %r vs %r" % (impl[:200], model[:200])
-    if case.startswith("e2e") and ("!unsettled" in impl or impl.startswith("panic no_P")):
+    if case.startswith(("e2e", "ae2e")) and ("!unsettled" in impl or impl.startswith("panic no_P")):
         return "G", "end-to-end run did not settle / no PADO-PADS within the harness deadline: %s" % impl[:200]
-    if case.startswith("e2e"):
+    if case.startswith(("e2e", "ae2e")):
         it, mt, ops = impl.split(), model.split(), case.split()[1:]
         for i, (a, b) in enumerate(zip(it, mt)):
             if a != b:
@@ -485,7 +508,7 @@ def shrink(case):
     t = case.split()
     if t[0] == "wgl":
         return
-    if t[0] in ("e2e", "rpppoe", "ripoe"):
+    if t[0] in ("e2e", "ae2e", "rpppoe", "ripoe"):
         for i in range(1, len(t)):
             if len(t) > 2:
                 yield " ".join(t[:i] + t[i + 1:])
@@ -525,7 +548,9 @@ def shrink(case):
 
 
 def distribution(cases, impl):
-    d = {"rpppoe": 0, "ripoe": 0, "restarts": 0, "restored_live_sessions_own_tuple": 0, "restored_live_sessions_without_owner": 0,
+    d = {"ae2e": 0, "ae2e_ops": 0, "ae2e_deliveries": 0, "ae2e_padt": 0, "ae2e_oper_terminate": 0,
+         "ae2e_states_with_both_protocols_live_pending_eviction": 0, "ae2e_final_states_both_protocols_live": 0,
+         "rpppoe": 0, "ripoe": 0, "restarts": 0, "restored_live_sessions_own_tuple": 0, "restored_live_sessions_without_owner": 0,
          "seq": 0, "conc": 0, "rconc": 0, "ipoe": 0, "pppoe": 0, "wgl": 0, "wgl_reject": 0, "e2e": 0, "e2e_ops": 0,
          "e2e_cross_protocol_takeovers": 0, "e2e_both_gone_after_takeover": 0, "e2e_both_protocols_live": 0, "caller_claims": 0, "caller_releases": 0, "gated_call_sites": 0, "gate_fired_inside": 0,
          "eviction_events": 0, "ops": 0, "claim": 0, "release": 0, "isowner": 0, "lookup": 0,
@@ -540,6 +565,17 @@ def distribution(cases, impl):
         d["hang"] += o.startswith("hang")
         if t[0] == "wgl":
             d["wgl_reject"] += t[1] == "reject"
+            continue
+        if t[0] == "ae2e":
+            ops, res = t[1:], o.split()
+            d["ae2e_ops"] += len(ops)
+            d["ae2e_deliveries"] += ops.count("V")
+            d["ae2e_padt"] += sum(x[0] == "X" for x in ops)
+            d["ae2e_oper_terminate"] += sum(x[0] == "O" for x in ops)
+            both = lambda tok: any(":i0" not in x and "p0:" not in x for x in tok.split(","))
+            d["ae2e_states_with_both_protocols_live_pending_eviction"] += sum(both(r) for r in res[:-1])
+            if res and ops[-4:] == ["V"] * 4:
+                d["ae2e_final_states_both_protocols_live"] += both(res[-1])
             continue
         if t[0] in ("rpppoe", "ripoe"):
             for op, r in zip(t[1:], o.split()):
